@@ -274,3 +274,31 @@ META["C04"] = dict(
     },
     assumptions=["dict items (key.item) are given on the command line only; config documents hold plain and '+' assignments"],
 )
+
+META["C05"] = dict(
+    title="The same settings give the same configuration through every input channel",
+    level="exploration",
+    level_text="N-version comparator at the API boundary: one logical set of settings (generated parser over the type grammar, "
+    "conforming values with hostile strings at str positions, or one near-miss value) is rendered for 11 channels - parse_object "
+    "(nested dict, dotted dict, Namespace), parse_string (nested, dotted), parse_path, --cfg file, --cfg string, argv options "
+    "(= and space form) and environment variables (names built by an independent implementation of the documented rule); all "
+    "must agree on accept/reject and on the resulting configuration, type for type. The same JSON document is parsed under "
+    "parser_mode yaml/json/jsonnet/omegaconf (parse_string and --cfg file) and compared.",
+    level_note="Trusted: the rendering rules (top-level strings raw on argv/env, everything else JSON) and the dynamic test that "
+    "excludes settings without an unambiguous text form (non-string scalar at a Union position with a string-taking member; Any).",
+    shards=g(4, 16),
+    budget=g(45, 300),
+    technique="N-version differential across input channels and parser modes with a type-for-type comparator",
+    rule="channels: a case is (multiset of argument type skeletons, valid | near-miss class, set of channels run); modes: "
+    "(type skeletons, modes run). Distinct by hash; non-trivial = at least two channels reached a decision.",
+    gates={
+        "mon.channel_pairs_compared": g(4000, 40000),
+        "mon.pair.argv.options_eq": g(300, 3000), "mon.pair.env": g(300, 3000), "mon.pair.argv.cfg_file": g(400, 4000),
+        "mon.pair.argv.cfg_string": g(400, 4000), "mon.pair.path": g(400, 4000), "mon.pair.string.dotted": g(400, 4000),
+        "mon.pair.object.dotted": g(400, 4000), "mon.pair.object.namespace": g(400, 4000),
+        "mon.pair_both_accepted": g(2000, 20000), "mon.pair_both_rejected": g(500, 5000),
+        "mon.mode.json": g(150, 1500), "mon.mode.jsonnet": g(150, 1500), "mon.mode.omegaconf": g(100, 1000),
+        "st.settings.nearmiss": g(100, 1000),
+    },
+    assumptions=["strings containing ${ are excluded from the omegaconf comparison (interpolation is that mode's purpose)"],
+)
